@@ -27,7 +27,7 @@ ASSUMPTIONS = [
     'smoothing window is a percentage of the layer count (0-100)',
     'for Guillot parameters outside the documented bounds but not in a listed rejected class nothing beyond agreement with the closed form is asserted',
 ]
-REQUIRED = {'negative-node': 0.01, 'kind:npoint': 0.08, 'kind:guillot': 0.06, 'kind:array': 0.04, 'kind:file': 0.03, 'kind:rodgers': 0.04,
+REQUIRED = {'negative-node': 0.006, 'kind:npoint': 0.08, 'kind:guillot': 0.06, 'kind:array': 0.04, 'kind:file': 0.03, 'kind:rodgers': 0.04,
             'kind:isothermal': 0.02, 'rejected-class': 0.04}
 MJUP = 1.2668653e17 / 6.6743e-11
 RJUP = 71492000.0
@@ -57,7 +57,7 @@ def _case(draw):
         c['p_fracs'] = fr
         c['ends'] = draw(st.sampled_from(['default', 'default', 'explicit', 'minus-one']))
         c['smooth'] = draw(st.sampled_from([10, 100, 0, 1, 5, 20, 33, 50, 100, 7.5, 3, 99]))
-        c['fault'] = draw(st.sampled_from([None, 'nearly-equal', None, 'inverted', 'slope', 'equal-controls', 'nearly-equal', 'negative-node']))
+        c['fault'] = draw(st.sampled_from([None, 'nearly-equal', None, 'inverted', 'slope', 'negative-node', 'equal-controls', 'nearly-equal', 'negative-node']))
         c['late_fault'] = draw(st.booleans())
         c['limit'] = draw(st.floats(10.0, 5000.0))
         c['inv_at'] = draw(st.floats(0.0, 0.999))
